@@ -4328,10 +4328,203 @@ def replay_multi_definition_reference(a):
 
 
 
+def sarif_per_file_results(a):
+    """C12 / C07 (`what is reported for one data file does not depend on the other files of the run`): SarifRun::from folds over the
+    failing file reports; per failing check of a report the step is exactly `runs.extend_results(SarifResults::from((failure,
+    report.name)))` - the results built for THIS check under THIS file's name are appended as they are; the step calls nothing else
+    (no filter / retain / de-duplication against what other files produced) and captures only the report and the accumulator."""
+    hdr = r"(?:reporters::validate::)?sarif::<impl at guard/src/commands/reporters/validate/sarif\.rs:\d+:\d+: \d+:\d+>::from::\{closure#1\}::\{closure#0\}"
+    ex = a.exec(hdr, {"from": lambda ex, av: ex.opq(), "extend_results": lambda ex, av: ("unit",)}, log=("*",), unroll=1, max_paths=200,
+                first_arg_re=r"_1: &mut \{closure@[^}]*\}, _2: &ClauseReport", deepen=False)
+    a.fns.append("commands::reporters::validate::sarif::<From<&[FileReport]> for SarifRun>::from::{closure#1}::{closure#0}")
+    text = mirsmt.find_fn(a.mir, hdr, r"_1: &mut \{closure@[^}]*\}, _2: &ClauseReport")
+    captures = set(re.findall(r"\(\(\*_1\)\.(\d+):", text))
+    env, failure = ex.arg_env["_1"], ex.arg_env["_2"]
+    FR = struct_fields(a.src, "rules/eval_context.rs", "FileReport")
+    bad, n = [], 0
+    for p in ex.paths:
+        if p.outcome != "return":
+            bad.append(pc_term(p.pc))
+            continue
+        n += 1
+        evs = [e for e in p.events if e[0] == "call"]
+        fr = [e for e in evs if e[1] == "from"]
+        er = [e for e in evs if e[1] == "extend_results"]
+        other = [e[1] for e in evs if e[1] not in ("from", "extend_results")]
+        ok = len(fr) == 1 and len(er) == 1 and not other and captures == {"0", "1"}
+        if ok:
+            tup = fr[0][2][0]
+            ok = tup[0] == "tuple" and len(tup[1]) == 2 and same(tup[1][0], failure)
+            if ok:
+                o = origin(ex, tup[1][1])
+                # the name is field `name` of the captured report: env.0 -> deref -> deref -> .name
+                ok = o is not None and same(o[0], env) and list(o[1]) == [".0", f".{FR.index('name')}"]
+            ok = ok and len(er[0][2]) == 2 and same(er[0][2][1], fr[0][3])
+            if ok:
+                o2 = origin(ex, er[0][2][0])
+                ok = o2 is not None and same(o2[0], env) and list(o2[1]) == [".1"]
+        bad.append("false" if ok else pc_term(p.pc))
+    c = a.discharge("sarif/per-file-step/results-appended-as-built", ex, bad,
+                    f"SARIF, one failing check of one data file ({n} returning paths): one SarifResults::from((that check, that report's name)), its "
+                    "result handed unchanged to extend_results of the captured accumulator, no other call, nothing captured but the report and "
+                    "the accumulator - what a file contributes does not depend on the files before it")
+    if c:
+        c["replay"] = replay_sarif_across_files(a)
+        c["reproduced"] = c["replay"].get("reproduced", False)
+        a.candidates.append(c)
+
+
+def replay_sarif_across_files(a):
+    """--structured -o sarif over several data files, some of them copies of one another: per data file (artifact uri) the number of results
+    is the number that file gets when validated alone, in every order of the -d arguments"""
+    import json as _json, os, shutil, subprocess, tempfile, collections
+    exe = a.cli()
+    if not exe:
+        return {"reproduced": False, "note": "native build failed"}
+    d = tempfile.mkdtemp(prefix="cfnverif_replay_")
+    out = []
+    try:
+        open(os.path.join(d, "r.guard"), "w").write("rule one { a == 1 <<a must be one>> }\nrule two { L[*] == 1 }\n")
+        docs = {"dev.json": '{"a": 2, "L": [1, 2]}\n', "prod.json": '{"a": 2, "L": [1, 2]}\n', "other.json": '{"a": 3, "L": [1]}\n', "good.json": '{"a": 1, "L": [1]}\n'}
+        for k, t in docs.items():
+            open(os.path.join(d, k), "w").write(t)
+
+        def run(names):
+            cmd = [exe, "validate", "-r", os.path.join(d, "r.guard"), "--structured", "-o", "sarif", "--show-summary", "none"]
+            for n_ in names:
+                cmd += ["-d", os.path.join(d, n_)]
+            pr = subprocess.run(cmd, capture_output=True, text=True, timeout=60)
+            try:
+                sar = _json.loads(pr.stdout)
+            except Exception:
+                return pr.returncode, None
+            cnt = collections.Counter()
+            for r_ in sar.get("runs", []):
+                for res in r_.get("results", []):
+                    for loc in res.get("locations", []):
+                        cnt[os.path.basename(loc.get("physicalLocation", {}).get("artifactLocation", {}).get("uri", ""))] += 1
+            return pr.returncode, cnt
+        alone = {}
+        for k in docs:
+            rc, cnt = run([k])
+            if cnt is None:
+                return {"reproduced": False, "note": "singleton run gave no SARIF document", "exit": rc}
+            alone[k] = cnt.get(k, 0)
+        for order in (["dev.json", "prod.json"], ["prod.json", "dev.json"], ["other.json", "dev.json", "good.json", "prod.json"], ["good.json", "prod.json", "other.json"]):
+            rc, cnt = run(order)
+            if cnt is None:
+                out.append({"order": order, "problem": "no SARIF document", "exit": rc})
+                continue
+            for k in order:
+                if cnt.get(k, 0) != alone[k]:
+                    out.append({"order": order, "data_file": k, "results_alone": alone[k], "results_in_this_run": cnt.get(k, 0)})
+        return {"reproduced": bool(out), "mismatches": out[:4]}
+    finally:
+        shutil.rmtree(d, ignore_errors=True)
+
+
+def junit_escaping_sites(a):
+    """C07 (`the structured JUnit output lets the same marks be read as the JSON output`): a JUnit document can only be read if it is
+    well-formed XML, i.e. if every name / message / path written into it went through quick-xml's escaping. quick-xml escapes an
+    attribute given as `(&str, &str)` and a text built by BytesText::new; `(&[u8], &[u8])`, `Attribute { .. }`, BytesText::from_escaped
+    and BytesStart::from_content are written verbatim. Enumerated from the MIR of the current tree: every instantiation of
+    push_attribute / extend_attributes and every text / element constructor of quick-xml called by the crate. Site enumeration
+    (degenerate solver part) + native replay (paths, messages and test names containing & < > quotes must give parseable XML with
+    the same marks as -o json)."""
+    attr = re.findall(r"= BytesStart::<'_>::(push_attribute|extend_attributes|with_attributes)::<'_, ([^\n]*?)>\(", a.mir)
+    raw_attr = [(k, t) for k, t in attr if not re.fullmatch(r"\(&str, &str\)|\[\(&str, &str\); \d+\]", t.strip())]
+    ctors = re.findall(r"= (BytesText::<'_>::\w+|BytesStart::<'_>::\w+|BytesEnd::<'_>::\w+|BytesCData::<'_>::\w+|BytesDecl::<'_>::\w+)(?:::<[^\n]*?>)?\(", a.mir)
+    okc = {"BytesText::<'_>::new", "BytesStart::<'_>::new", "BytesEnd::<'_>::new", "BytesDecl::<'_>::new", "BytesStart::<'_>::push_attribute",
+           "BytesStart::<'_>::extend_attributes"}
+    raw_ctor = sorted(set(c for c in ctors if c not in okc))
+    n = len(attr) + len(ctors)
+    bad = "true" if (raw_attr or raw_ctor) else "false"
+    a.ob.check("junit/every-text-written-through-the-escaping-constructors", [], [], bad,
+               f"({n} quick-xml sites) every attribute is handed to quick-xml as (&str, &str) [{len(attr)} instantiations] and every text node / "
+               f"element is built by an escaping constructor [{len(ctors)} calls]; verbatim forms found: {raw_attr + raw_ctor} "
+               "(site enumeration over the MIR; degenerate solver part)")
+    item = a.ob.items[-1]
+    item["paths"], item["cut_by_unroll_bound"], item["unroll"] = max(1, n), 0, 0
+    if n == 0:
+        item["status"] = "inconclusive"
+    a.fns.append("every quick-xml constructor / attribute call of commands::reporters (JUnit writer)")
+    if item["status"] == "refuted":
+        item["replay"] = replay_junit_wellformed(a)
+        item["reproduced"] = item["replay"].get("reproduced", False)
+        a.candidates.append(item)
+
+
+def replay_junit_wellformed(a):
+    """data files whose PATH, rules whose MESSAGES and test specs whose NAMES contain & < > ' ": the JUnit document must parse as XML and
+    carry the same marks (suite name = the file, the failing rules named by the <failure> elements) as the JSON output; for `test` the same number of failing cases"""
+    import os, shutil, subprocess, tempfile, json as _json
+    import xml.etree.ElementTree as ET
+    exe = a.cli()
+    if not exe:
+        return {"reproduced": False, "note": "native build failed"}
+    d = tempfile.mkdtemp(prefix="cfnverif_replay_")
+    out = []
+    try:
+        sub = os.path.join(d, "R&D <x> 'q'")
+        os.makedirs(sub)
+        rules = os.path.join(d, "r.guard")
+        open(rules, "w").write('rule one {\n  a == 1 <<a & b < c > d "quoted" \'single\'>>\n}\nrule two { b == 1 }\n')
+        for nm, txt in (("service.json", '{"a": 2, "b": 1, "k": "x & y <z>"}\n'), ("ok&fine.json", '{"a": 1, "b": 1}\n')):
+            open(os.path.join(sub, nm), "w").write(txt)
+        for files in (["service.json"], ["ok&fine.json"], ["service.json", "ok&fine.json"]):
+            cmd = [exe, "validate", "-r", rules, "--structured", "--show-summary", "none"]
+            for f in files:
+                cmd += ["-d", os.path.join(sub, f)]
+            pj = subprocess.run(cmd + ["-o", "json"], capture_output=True, text=True, timeout=60)
+            px = subprocess.run(cmd + ["-o", "junit"], capture_output=True, text=True, timeout=60)
+            try:
+                rep = _json.loads(pj.stdout)
+            except Exception:
+                out.append({"files": files, "problem": "-o json gave no report", "exit": pj.returncode})
+                continue
+            try:
+                root = ET.fromstring(px.stdout)
+            except ET.ParseError as e:
+                out.append({"files": files, "problem": f"-o junit is not well-formed XML: {e}", "exit_junit": px.returncode, "exit_json": pj.returncode})
+                continue
+            suites = {os.path.basename(ts.get("name", "")): ts for ts in root.iter("testsuite")}
+            for r in rep:
+                nm = os.path.basename(r["name"])
+                ts = suites.get(nm)
+                if ts is None:
+                    out.append({"files": files, "problem": f"no <testsuite> named after {nm!r}; names: {sorted(suites)}"})
+                    continue
+                failing_json = sorted(x["Rule"]["name"].split("/")[-1] for x in r.get("not_compliant", []) if "Rule" in x)
+                failing_xml = sorted(set(fl.get("message", "").split("/")[-1] for tc in ts.iter("testcase") for fl in tc.iter("failure")))
+                failing_json = sorted(set(failing_json))
+                if failing_json != failing_xml:
+                    out.append({"files": files, "data_file": nm, "failing rules (json)": failing_json, "rules named by <failure message=..> (junit)": failing_xml})
+            if px.returncode != pj.returncode:
+                out.append({"files": files, "problem": f"exit {px.returncode} (junit) vs {pj.returncode} (json)"})
+        # `test -o junit`
+        spec = os.path.join(sub, "t.yaml")
+        open(spec, "w").write('- name: "case <1> & \'2\'"\n  input: {"a": 2, "b": 1}\n  expectations:\n    rules:\n      one: PASS\n      two: PASS\n'
+                              '- name: plain\n  input: {"a": 1, "b": 1}\n  expectations:\n    rules:\n      one: PASS\n      two: PASS\n')
+        pj = subprocess.run([exe, "test", "-r", rules, "-t", spec, "-o", "json"], capture_output=True, text=True, timeout=60)
+        px = subprocess.run([exe, "test", "-r", rules, "-t", spec, "-o", "junit"], capture_output=True, text=True, timeout=60)
+        try:
+            root = ET.fromstring(px.stdout)
+            nfail = sum(1 for tc in root.iter("testcase") if tc.find("failure") is not None)
+            if px.returncode != pj.returncode:
+                out.append({"command": "test", "problem": f"exit {px.returncode} (junit) vs {pj.returncode} (json)"})
+            if (nfail > 0) != (pj.returncode == 7):
+                out.append({"command": "test", "problem": f"{nfail} failing cases in the JUnit document, exit code {pj.returncode}"})
+        except ET.ParseError as e:
+            out.append({"command": "test", "problem": f"test -o junit is not well-formed XML: {e}", "exit_junit": px.returncode})
+        return {"reproduced": bool(out), "mismatches": out[:4]}
+    finally:
+        shutil.rmtree(d, ignore_errors=True)
+
+
 SITES = {
     "C06": [structured_report, structured_parse_closure, junit_exit_code, junit_test_case, junit_report, validate_execute_step, test_generic_report, test_result_exit_code, test_exit_code_domain],
-    "C12": [structured_report, junit_test_case, junit_report, data_input_wiring, data_input_params_wiring, structured_merge_closure, test_get_by_result, test_structured_evaluate, report_combine_union],
-    "C07": [flags_verdict_wiring, reporter_chain, library_entry_wiring, sarif_one_result_per_message, report_combine_union, structured_report, junit_test_case, junit_report, validate_execute_step,
+    "C12": [sarif_per_file_results, structured_report, junit_test_case, junit_report, data_input_wiring, data_input_params_wiring, structured_merge_closure, test_get_by_result, test_structured_evaluate, report_combine_union],
+    "C07": [flags_verdict_wiring, reporter_chain, library_entry_wiring, sarif_one_result_per_message, sarif_per_file_results, junit_escaping_sites, report_combine_union, structured_report, junit_test_case, junit_report, validate_execute_step,
             data_input_params_wiring, structured_merge_closure],
     "C16": [test_generic_report, test_get_by_result, test_get_by_rules, test_structured_evaluate, test_result_exit_code, test_junit_counts, test_data_per_spec],
     "C02": [param_ctx_end_record, scope_delegations, param_rule_call],
